@@ -32,6 +32,31 @@ DEFS = ["-DHAVE_CONFIG_H", "-D" + GUARD,
         '-DLOGDIR="."']
 
 
+class Proc:
+    """A child process whose stdout / stderr go to temporary files, not pipes: several long-running children can then be
+    started together and collected one after the other without any of them blocking on a full pipe."""
+
+    def __init__(self, cmd, env=None, cwd=None):
+        import tempfile
+        os.makedirs(os.path.join(BUILD, "tmp"), exist_ok=True)
+        self._out = tempfile.TemporaryFile(dir=os.path.join(BUILD, "tmp"))
+        self._err = tempfile.TemporaryFile(dir=os.path.join(BUILD, "tmp"))
+        self.p = subprocess.Popen(cmd, stdout=self._out, stderr=self._err, env=env, cwd=cwd)
+
+    def communicate(self):
+        self.p.wait()
+        res = []
+        for f in (self._out, self._err):
+            f.seek(0)
+            res.append(f.read())
+            f.close()
+        return res[0], res[1]
+
+    @property
+    def returncode(self):
+        return self.p.returncode
+
+
 class MachineryError(Exception):
     """The harness itself failed (build, tool): exit 2, never a verdict."""
 
